@@ -208,6 +208,27 @@ struct JParser {
 	}
 };
 
+// re-serialise a parsed value (object keys keep their order)
+inline std::string toJson(const JV& v) {
+	switch (v.k) {
+		case JV::Null: return "null";
+		case JV::Bool: return v.b ? "true" : "false";
+		case JV::Num: return std::to_string(v.n);
+		case JV::Str: return J::str(v.s).s;
+		case JV::Arr: {
+			JArr a;
+			for (auto& x : v.a) a.raw(toJson(x));
+			return a.done();
+		}
+		case JV::Obj: {
+			JObj o;
+			for (auto& p : v.o) o.raw(p.first.c_str(), toJson(p.second));
+			return o.done();
+		}
+	}
+	return "null";
+}
+
 inline JV jparse(const std::string& s) {
 	JParser jp(s);
 	return jp.parse();
